@@ -4,6 +4,7 @@ pub mod arena;
 pub mod env;
 pub mod grid;
 pub mod overflow;
+pub mod pair;
 pub mod journal;
 pub mod mc;
 pub mod util;
@@ -175,6 +176,51 @@ fn main() {
             };
             let rep = mc::explore(&model, &p);
             let j = report_json(&rep, serde_json::json!({"engine": "grid", "kind": format!("{:?}", kind), "thorough": thorough, "threads": threads}));
+            let out = a.get("out").cloned().unwrap_or("/dev/stdout".into());
+            std::fs::write(&out, serde_json::to_string_pretty(&j).unwrap()).unwrap();
+        }
+        "pair" | "replay-pair" => {
+            let replay = args[1] == "replay-pair";
+            env::init_region((threads + 2) * env::MAX_ARENAS * (slab_bytes + env::SLAB_ALIGN));
+            journal::install(a.get("dump").map(|s| s.as_str()));
+            journal::spawn_watchdog(a.get("stall-s").map(|s| s.parse().unwrap()).unwrap_or(20));
+            pair::install_hook();
+            let thorough = a.get("tier").map(|s| s == "thorough").unwrap_or(false);
+            let depth: usize = a.get("depth").map(|s| s.parse().unwrap()).unwrap_or(4);
+            let model = pair::PairModel { thorough, max_depth: depth };
+            if replay {
+                let bytes = journal::from_hex(a.get("hex").expect("--hex"));
+                let h = mc::Hist::<pair::PCfg, pair::PAct>::from_bytes(&bytes).unwrap_or_else(|| {
+                    eprintln!("MACHINERY: history bytes have the wrong length");
+                    std::process::exit(2)
+                });
+                let mut w = mc::Worker { idx: 0, env: env::ExecEnv::new(slab_bytes) };
+                journal::set_worker(0);
+                journal::install_altstack();
+                env::attach(&mut *w.env as *mut env::ExecEnv);
+                journal::record(&h);
+                println!("{}", serde_json::to_string(&serde_json::json!({"replaying": mc::Model::describe(&model, &h)})).unwrap());
+                let out = mc::Model::run(&model, &mut w, &h, false);
+                let viols: Vec<serde_json::Value> = out.violations.iter().map(|v| serde_json::json!({"property": format!("C{:02}", v.prop), "clause": v.clause, "key": v.key, "detail": v.detail})).collect();
+                let j = serde_json::json!({"history": mc::Model::describe(&model, &h), "trace": [], "violations": viols, "key": format!("{:032x}", out.key)});
+                println!("{}", serde_json::to_string_pretty(&j).unwrap());
+                return;
+            }
+            let prop: u32 = a.get("prop").map(|s| s.parse().unwrap()).unwrap_or(0);
+            let p = mc::Params {
+                max_depth: depth,
+                max_devs: 0,
+                threads,
+                budget_s: a.get("budget-s").map(|s| s.parse().unwrap()).unwrap_or(40.0),
+                prop_mask: if prop == 0 { u32::MAX } else { 1 << prop },
+                slab_bytes,
+                emergency_out: a.get("out").cloned(),
+                max_violations: 40,
+                skip: load_skip(a.get("skip")),
+                max_states_per_level: a.get("max-level").map(|s| s.parse().unwrap()).unwrap_or(3_000_000),
+            };
+            let rep = mc::explore(&model, &p);
+            let j = report_json(&rep, serde_json::json!({"engine": "pair", "thorough": thorough, "max_depth": depth, "threads": threads}));
             let out = a.get("out").cloned().unwrap_or("/dev/stdout".into());
             std::fs::write(&out, serde_json::to_string_pretty(&j).unwrap()).unwrap();
         }
